@@ -155,15 +155,25 @@ def model_req(texts, allow, strict):
     return {'op': 'collection', 'docs': [TJ.parse(t) for t in texts], 'allow_incomplete': allow, 'strict': strict}
 
 
-def obs_key(o):
-    """The comparable part of an implementation observation."""
+def obs_key(o, tree=False):
+    """The comparable part of an implementation observation: how the collection was built and how the
+    merge loop behaved (errors, reader order, warnings).  The merged tree itself is the projection of
+    the merge properties C01-C06 and is compared here only on request."""
     run = o['run']
-    return {'err': o['err'], 'reader_ids': o['reader_ids'], 'ro_msg_id': o['ro_msg_id'],
-            'run': None if run is None else {'ro': run['ro'], 'warns': run['warns'], 'err': run['err']}}
+    k = {'err': o['err'], 'reader_ids': o['reader_ids'], 'ro_msg_id': o['ro_msg_id'],
+         'run': None if run is None else {'warns': run['warns'], 'err': run['err']}}
+    if tree and run is not None:
+        k['run']['ro'] = run['ro']
+    return k
 
 
-def model_key(r):
-    return {'err': r['err'], 'reader_ids': r['reader_ids'], 'ro_msg_id': r['ro_msg_id'], 'run': r['run']}
+def model_key(r, tree=False):
+    run = r['run']
+    k = {'err': r['err'], 'reader_ids': r['reader_ids'], 'ro_msg_id': r['ro_msg_id'],
+         'run': None if run is None else {'warns': run['warns'], 'err': run['err']}}
+    if tree and run is not None:
+        k['run']['ro'] = run['ro']
+    return k
 
 
 # ---- C09 ------------------------------------------------------------------------------------------
